@@ -5,6 +5,7 @@ import RTA.Lemmas.ExecRefine
 import RTA.Lemmas.ExecRunMeets
 import RTA.Lemmas.ExecEndToEnd
 import RTA.Lemmas.ExecEndToEndExample
+import RTA.Lemmas.ExecEndToEndExample2
 import RTA.Lemmas.ExecEndToEndX
 import RTA.Spec.Ros2Exec
 /-! # C05 — the RTSS'21 round-robin-aware (rr) and busy-window-aware (bw) analyses are safe
@@ -326,6 +327,16 @@ theorem bw_safe_all_execution_times (cbs : List Exec.Cb) (ex : Nat → Nat → N
     ∀ o ∈ ExecX.run cbs ex (fun _ => none) ((List.range n).map sigma) rels, o.1 = i →
       o.2.2 ≤ o.2.1 + (wl.getD i default).rtb :=
   ExecX.bw_exec_sound_x cbs ex sigma rels H hidx hfin hex sup hs hsbf wl hlen hscalar hwf hkinds hprio hrel limit dbg hself n i
+
+/-- non-vacuity of `bw_safe_end_to_end` on the same run: the bw singleton analyses return `Ok(6)`
+for every callback (≤ the assumed bound 9), and every completion that `Exec.run` reports is
+within the bounds -/
+theorem bw_safe_end_to_end_nonvacuous :
+    (∀ i, i < Exec.exWl.length →
+      ∃ R, bwSubchain .dedicated Exec.exWl [i] 100 false = .ok R ∧ R ≤ (Exec.exWl.getD i default).rtb) ∧
+    ∀ o ∈ Exec.run Exec.exCbs (fun _ => none) ((List.range 60).map Exec.exSigmaAll) Exec.exRels,
+      o.2.2 ≤ o.2.1 + (Exec.exWl.getD o.1 default).rtb :=
+  ⟨Exec.bw_example_self_consistent, Exec.bw_example_bounded⟩
 
 /-- analysis side: rr = naive linear-scan evaluation -/
 theorem rr_is_naive (s : Supply) (hs : s.WF) (wl : List Callback) (sub : List Nat) (limit : Nat)
